@@ -61,7 +61,8 @@ def run(p, led, tier):
         return freeze(obj.fields["_genes"])
 
     def approved_on_path(it):
-        return any("on_mutation" in d[2] and d[3] is True for d in it.decisions) or any("approved" in d[0] and "on_mutation" in d[2] and d[1] for d in it.decisions)
+        # the truthiness taken for the *value returned by* the approval callback (not the test that a callback is configured)
+        return any(d[2].startswith("ret(on_mutation)") and d[3] is True for d in it.decisions)
 
     # ---------------- R1/R2: mutate & add_gene & expression ops
     def op_runner(opname, args_fn):
@@ -153,7 +154,7 @@ def run(p, led, tier):
                     return None
                 raise
             asked = [e for e in it.events[mark_e:] if e[0] == "extcall" and "on_mutation" in str(e[1])]
-            approved = any("on_mutation" in d[2] and d[3] is True for d in it.decisions[mark_d:])
+            approved = any(d[2].startswith("ret(on_mutation)") and d[3] is True for d in it.decisions[mark_d:])
             return dict(changed=genes_snap(obj) != before, asked=len(asked), approved=approved, ret=r)
         paths = [(l, r) for l, r in explore(go2, max_paths=400) if r is not None]
         key = f"Genome.mutate ▸ later request ({second}) judged afresh"
